@@ -25,7 +25,18 @@ func factsPrecompiles() {
 				sync := len(calls(fd.Body, "SyncBalances")) > 0
 				manual := len(calls(fd.Body, "SubBalance"))+len(calls(fd.Body, "AddBalance")) > 0
 				// the sync must come after the last call that runs the Cosmos message and before the final return
+				// the message's writes must have reached the store the StateDB reads before the sync looks: a branch of the
+				// state (CacheContext) written back later, or any deferred call, runs after it
+				late := strings.Contains(src(fd.Body), "CacheContext(")
+				ast.Inspect(fd.Body, func(n ast.Node) bool {
+					if _, ok := n.(*ast.DeferStmt); ok {
+						late = true
+					}
+					return true
+				})
 				switch {
+				case sync && late:
+					v = "sync-before-branched-or-deferred-write"
 				case sync && !manual:
 					v = "sync"
 				case sync && manual:
